@@ -174,3 +174,1299 @@ Proof.
   - inversion Hnd; subst. destruct (String.eqb (p_name a) (p_name p)) eqn:E; [|auto].
     apply String.eqb_eq in E. exfalso. apply H2. rewrite E. now apply in_map.
 Qed.
+
+(* ---------------------------------------------------------------------------------------- *)
+(* 1. atomic transitions                                                                      *)
+(* ---------------------------------------------------------------------------------------- *)
+(* MAny: no restriction.  MGuard: a host identity is only ever set to the connection's node
+   name.  MOn k: as MGuard, and identities are written on connection k only.  MQuiet: no identity
+   (node name / host) is written at all. *)
+Inductive mode : Set := MAny | MGuard | MOn (k : nat) | MQuiet.
+Definition writes (md : mode) (cid : nat) : Prop :=
+  match md with MQuiet => False | MOn k => k = cid | _ => True end.
+Definition guarded (md : mode) : Prop :=
+  match md with MGuard | MOn _ => True | _ => False end.
+
+Definition soft_peer (f : peer -> peer) : Prop :=
+  forall p, p_name (f p) = p_name p /\ p_conn (f p) = p_conn p /\ p_lastdisc (f p) = p_lastdisc p /\
+            (p_reason (f p) = p_reason p \/ p_reason (f p) <> None).
+
+Definition name_fn (host : string) : conn -> conn :=
+  fun c => if String.eqb (c_node_name c) "" then set_cident c host (c_host c) (c_auth c) (c_acct c) else c.
+
+Definition assign_fn (cid : nat) (lc : peer -> option Z) : peer -> peer :=
+  fun p => set_pconn p (match p_conn p with Some k => Some k | None => Some cid end) None (lc p) (p_lastdisc p).
+
+(* the state right after accept() registered the new connection *)
+Definition accept_conn (n : node) (hbh0 : Z) : node :=
+  let cid := n_next_cid n in
+  let c := new_conn cid true SConnected "" (n_now n) hbh0 in
+  let n1 := set_misc (set_conns n (n_conns n ++ [c])%list) (n_stopping n) (S cid) (n_e2e n) in
+  set_tables n1 (n_half_ready n1 ++ [cid])%list (n_socket_peers n1 ++ [cid])%list.
+
+(* the state right after _connect_to_peer registered the new connection *)
+Definition dial_conn (n : node) (name : string) (hbh0 : Z) : node :=
+  let cid := n_next_cid n in
+  let c := new_conn cid false SConnecting name (n_now n) hbh0 in
+  let n1 := set_misc (set_conns n (n_conns n ++ [c])%list) (n_stopping n) (S cid) (n_e2e n) in
+  let n2 := set_tables n1 (n_half_ready n1) (n_socket_peers n1 ++ [cid])%list in
+  set_peers n2 (upd_peer (n_peers n2) name (fun p => set_pconn p (Some cid) None (Some (n_now n2)) (p_lastdisc p))).
+
+Inductive astep (md : mode) : node -> node -> Prop :=
+| A_soft n cid f : soft f -> astep md n (set_conns n (upd_conn (n_conns n) cid f))
+| A_name n cid host p : writes md cid -> get_peer n host = Some p ->
+    astep md n (set_conns n (upd_conn (n_conns n) cid (name_fn host)))
+| A_host n cid host au ac : writes md cid ->
+    (guarded md -> forall c, get_conn n cid = Some c -> c_node_name c = host) ->
+    astep md n (set_conns n (upd_conn (n_conns n) cid (fun c => set_cident c (c_node_name c) host (au c) (ac c))))
+| A_wait n aw pw ow sa :
+    incl (List.map fst pw) (List.map fst (n_peer_waiting n)) ->
+    (sa = n_sent_answers n \/ exists o e, sa = sa_append (g_rsize (n_cfg n)) (n_sent_answers n) o e) ->
+    astep md n (set_waiting n aw pw ow sa)
+| A_pw_add n cid c k : get_conn n cid = Some c ->
+    astep md n (set_waiting n (n_app_waiting n) (pw_add (n_peer_waiting n) (c_host c) k)
+                            (n_origin_waiting n) (n_sent_answers n))
+| A_peer_soft n nm f : soft_peer f -> astep md n (set_peers n (upd_peer (n_peers n) nm f))
+| A_assign n cid c p lc : get_conn n cid = Some c -> c_host c <> ""%string -> get_peer n (c_host c) = Some p ->
+    astep md n (set_peers n (upd_peer (n_peers n) (c_host c) (assign_fn cid lc)))
+| A_hr n x : astep md n (set_tables n (remove_nat x (n_half_ready n)) (n_socket_peers n))
+| A_remove n cid r c : get_conn n cid = Some c -> astep md n (remove_conn n cid r)
+| A_apps n l : astep md n (set_apps n l)
+| A_time n a b : astep md n (set_time n a b)
+| A_misc n st k e : n_next_cid n <= k -> astep md n (set_misc n st k e)
+| A_new_in n h : astep md n (accept_conn n h)
+| A_new_out n name h p : get_peer n name = Some p -> p_conn p = None -> astep md n (dial_conn n name h).
+
+Inductive trans (md : mode) : node -> node -> Prop :=
+| T_refl n : trans md n n
+| T_snoc n1 n2 n3 : trans md n1 n2 -> astep md n2 n3 -> trans md n1 n3.
+
+Lemma trans_trans md n1 n2 n3 : trans md n1 n2 -> trans md n2 n3 -> trans md n1 n3.
+Proof. intros H1 H2. induction H2 as [|a b c H IH Hs]; [exact H1|]. eapply T_snoc; [apply IH; exact H1|exact Hs]. Qed.
+
+(* an unrestricted derivation from a quiet or guarded one *)
+Lemma astep_any md n n' : astep md n n' -> astep MAny n n'.
+Proof. intros H. destruct H; try (econstructor; eauto; fail); econstructor; cbn; eauto; tauto. Qed.
+Lemma trans_any md n n' : trans md n n' -> trans MAny n n'.
+Proof. intros H. induction H; [constructor|]. eapply T_snoc; eauto. eapply astep_any; eauto. Qed.
+Lemma astep_quiet md n n' : astep MQuiet n n' -> astep md n n'.
+Proof. intros H. destruct H; try (econstructor; eauto; fail); cbn in *; tauto. Qed.
+Lemma trans_quiet md n n' : trans MQuiet n n' -> trans md n n'.
+Proof. intros H. induction H; [constructor|]. eapply T_snoc; eauto. eapply astep_quiet; eauto. Qed.
+Lemma astep_on k n n' : astep (MOn k) n n' -> astep MGuard n n'.
+Proof.
+  intros H. destruct H; try (econstructor; eauto; fail).
+  - eapply A_name; cbn; eauto.
+  - eapply A_host; cbn; auto.
+Qed.
+Lemma trans_on k n n' : trans (MOn k) n n' -> trans MGuard n n'.
+Proof. intros H. induction H; [constructor|]. eapply T_snoc; eauto. eapply astep_on; eauto. Qed.
+
+(* ---------------------------------------------------------------------------------------- *)
+(* 2. every model function is a composition of atomic transitions                            *)
+(* ---------------------------------------------------------------------------------------- *)
+Lemma t_a md n0 n n' : astep md n n' -> trans md n0 n -> trans md n0 n'.
+Proof. intros H1 H2. eapply T_snoc; eauto. Qed.
+
+Ltac soft_tac :=
+  let c := fresh "c" in
+  intro c; repeat (match goal with |- context [if ?b then _ else _] => destruct b end); cbn; auto.
+Ltac t_soft := eapply t_a; [apply A_soft; soft_tac|].
+Ltac dpair X :=
+  let a := fresh "nn" in let b := fresh "oo" in let E := fresh "E" in
+  destruct X as [a b] eqn:E; apply (f_equal fst) in E; cbn [fst] in E; subst a.
+Ltac dtriple X :=
+  let a := fresh "nn" in let b := fresh "oo" in let c := fresh "dd" in let E := fresh "E" in
+  destruct X as [[a b] c] eqn:E; apply (f_equal (fun x => fst (fst x))) in E; cbn [fst] in E; subst a.
+
+Lemma map_fst_pw_remove pw h k : List.map fst (pw_remove pw h k) = List.map fst pw.
+Proof. unfold pw_remove. rewrite map_map. apply map_ext. intros e. destruct (String.eqb (fst e) h); auto. Qed.
+
+Lemma incl_map_filter {A B} (f : A -> B) g (l : list A) : incl (List.map f (List.filter g l)) (List.map f l).
+Proof. intros x H. apply in_map_iff in H. destruct H as [y [E H]]. apply filter_In in H. apply in_map_iff. exists y; tauto. Qed.
+
+Section Prims.
+Variable md : mode.
+
+Lemma queue_out_t n0 n cid m : trans md n0 n -> trans md n0 (fst (queue_out n cid m)).
+Proof. intros H. unfold queue_out; cbn [fst]. t_soft. exact H. Qed.
+
+Lemma record_answer_t n0 n h e : trans md n0 n -> trans md n0 (record_answer n h e).
+Proof.
+  intros H. unfold record_answer. destruct (List.find _ _) as [[[a b] o]|]; auto.
+  eapply t_a; [apply A_wait|exact H]. apply incl_refl. right; eauto.
+Qed.
+
+Lemma send_message_t n0 n cid m : trans md n0 n -> trans md n0 (fst (send_message n cid m)).
+Proof.
+  intros H. unfold send_message, queue_out. destruct (o_req m); cbn [fst].
+  - t_soft. exact H.
+  - apply record_answer_t. t_soft. destruct (get_conn n cid); auto.
+    eapply t_a; [apply A_wait|exact H]. rewrite map_fst_pw_remove. apply incl_refl. now left.
+Qed.
+
+Lemma flag_ready_t n0 n cid : trans md n0 n -> trans md n0 (flag_ready n cid).
+Proof. intros H. unfold flag_ready. eapply t_a; [apply A_apps|]. t_soft. exact H. Qed.
+
+Lemma assign_peer_conn_t n0 n cid : trans md n0 n -> trans md n0 (assign_peer_conn n cid).
+Proof.
+  intros H. unfold assign_peer_conn. destruct (get_conn n cid) as [c|] eqn:Ec; auto.
+  destruct (String.eqb (c_host c) "") eqn:Eh; auto. apply String.eqb_neq in Eh.
+  destruct (get_peer n (c_host c)) as [p|] eqn:Ep; auto.
+  assert (H1 : trans md n0 (set_peers n (upd_peer (n_peers n) (c_host c)
+             (assign_fn cid (fun p => if mem_nat cid (n_half_ready n) then Some (n_now n) else p_lastconn p))))).
+  { eapply t_a; [eapply A_assign; eauto|exact H]. }
+  unfold assign_fn in H1.
+  destruct (mem_nat cid (n_half_ready n)); auto.
+  eapply t_a; [apply A_hr|]. exact H1.
+Qed.
+
+Lemma close_conn_t n0 n cid r : trans md n0 n -> trans md n0 (fst (close_conn n cid r)).
+Proof.
+  intros H. unfold close_conn. destruct (get_conn n cid) eqn:E; cbn [fst]; auto.
+  eapply t_a; [eapply A_remove; eauto|exact H].
+Qed.
+
+Lemma recv_dwr_t n0 n cid m : trans md n0 n -> trans md n0 (fst (recv_dwr n cid m)).
+Proof. intros H. unfold recv_dwr. now apply send_message_t. Qed.
+
+Lemma recv_dwa_t n0 n cid : trans md n0 n -> trans md n0 (fst (recv_dwa n cid)).
+Proof. intros H. unfold recv_dwa; cbn [fst]. t_soft. exact H. Qed.
+
+Lemma recv_dpr_t n0 n cid m : trans md n0 n -> trans md n0 (fst (recv_dpr n cid m)).
+Proof.
+  intros H. unfold recv_dpr. apply send_message_t.
+  match goal with |- trans _ _ (match get_conn ?N cid with _ => _ end) => assert (H1 : trans md n0 N) by (t_soft; exact H) end.
+  destruct (get_conn _ cid) as [c|]; auto. destruct (find_conn_peer _ c) as [p|]; auto.
+  eapply t_a; [apply A_peer_soft|exact H1]. intros q; cbn. repeat split; auto. right; discriminate.
+Qed.
+
+Lemma recv_dpa_t n0 n cid : trans md n0 n -> trans md n0 (fst (recv_dpa n cid)).
+Proof.
+  intros H. unfold recv_dpa.
+  match goal with |- trans _ _ (fst (match get_conn ?N cid with _ => _ end)) => assert (H1 : trans md n0 N) by (t_soft; exact H) end.
+  destruct (get_conn _ cid) as [c|]; auto. destruct (c_out c); auto. now apply close_conn_t.
+Qed.
+
+Lemma recv_app_request_t n0 n cid m : trans md n0 n -> trans md n0 (fst (recv_app_request n cid m)).
+Proof.
+  intros H. unfold recv_app_request. destruct (get_conn n cid) as [c|] eqn:Ec; auto.
+  destruct (m_drealm m); try now apply send_message_t.
+  destruct (route_lookup n a); try now apply send_message_t.
+  destruct (List.find _ l) as [[[i|] x]|]; try now apply send_message_t.
+  cbn [fst]. eapply t_a; [eapply A_pw_add; eauto|exact H].
+Qed.
+
+Lemma recv_app_answer_t n0 n m : trans md n0 n -> trans md n0 (fst (recv_app_answer n m)).
+Proof.
+  intros H. unfold recv_app_answer. destruct (List.find _ _) as [[[a b] i]|]; auto.
+  destruct (List.nth_error _ i); auto.
+  match goal with |- trans _ _ (fst (if _ then (set_apps ?N _, _) else _)) => assert (H1 : trans md n0 N) end.
+  { eapply t_a; [apply A_wait|exact H]. apply incl_refl. now left. }
+  destruct (mem_z _ _); cbn [fst]; auto. eapply t_a; [apply A_apps|exact H1].
+Qed.
+
+Lemma own_request_t n0 n cid c : trans md n0 n -> trans md n0 (fst (own_request n cid c)).
+Proof.
+  intros H. unfold own_request. destruct (get_conn n cid); cbn [fst]; auto.
+  eapply t_a; [apply A_misc; cbn; lia|]. t_soft. exact H.
+Qed.
+
+Lemma send_cer_t n0 n cid : trans md n0 n -> trans md n0 (fst (send_cer n cid)).
+Proof. intros H. unfold send_cer. dpair (own_request n cid CE). apply send_message_t. now apply own_request_t. Qed.
+
+Lemma send_dwr_t n0 n cid : trans md n0 n -> trans md n0 (fst (send_dwr n cid)).
+Proof.
+  intros H. unfold send_dwr. dpair (own_request n cid DW).
+  match goal with |- context [send_message ?N ?C ?M] => dpair (send_message N C M) end.
+  cbn [fst]. t_soft. apply send_message_t. now apply own_request_t.
+Qed.
+
+Lemma send_dpr_t n0 n cid : trans md n0 n -> trans md n0 (fst (send_dpr n cid)).
+Proof.
+  intros H. unfold send_dpr. dpair (own_request n cid DP). apply send_message_t. t_soft. now apply own_request_t.
+Qed.
+
+Lemma check_timers_t n0 n cid : trans md n0 n -> trans md n0 (fst (check_timers n cid)).
+Proof.
+  intros H. unfold check_timers. destruct (n_stopping n); auto. destruct (get_conn n cid) as [c|]; auto.
+  destruct (c_state c); auto;
+    match goal with |- context [if ?b then _ else _] => destruct b end; auto;
+    try now apply close_conn_t. now apply send_dwr_t.
+Qed.
+
+Lemma timers_all_t cids : forall n0 n, trans md n0 n -> trans md n0 (fst (timers_all n cids)).
+Proof.
+  induction cids as [|c r IH]; intros n0 n H; cbn [timers_all fst]; auto.
+  dpair (check_timers n c). dpair (timers_all (fst (check_timers n c)) r). cbn [fst].
+  apply IH. now apply check_timers_t.
+Qed.
+
+Lemma connect_to_peer_t n0 n name h res : trans md n0 n -> trans md n0 (fst (connect_to_peer n name h res)).
+Proof.
+  intros H. unfold connect_to_peer. destruct (get_peer n name) as [p|] eqn:Ep; auto.
+  destruct (p_conn p) eqn:Ec; auto. destruct (negb (p_has_addr p)); auto.
+  assert (H1 : trans md n0 (dial_conn n name h)) by (eapply t_a; [eapply A_new_out; eauto|exact H]).
+  unfold dial_conn in H1. cbv zeta.
+  destruct res.
+  - match goal with |- context [send_cer ?N ?C] => dpair (send_cer N C) end. cbn [fst].
+    apply send_cer_t. t_soft. exact H1.
+  - match goal with |- context [close_conn ?N ?C ?R] => dpair (close_conn N C R) end. cbn [fst].
+    apply close_conn_t. exact H1.
+  - cbn [fst]. exact H1.
+Qed.
+
+Lemma reconnect_all_t names : forall n0 n ds, trans md n0 n -> trans md n0 (fst (fst (reconnect_all n names ds))).
+Proof.
+  induction names as [|nm r IH]; intros n0 n ds H; cbn [reconnect_all fst]; auto.
+  destruct (get_peer n nm) as [p|]; auto.
+  destruct (wants_reconnect n p && p_has_addr p); auto.
+  destruct ds as [|[h0 res] dr].
+  - dpair (connect_to_peer n nm 0 DialOk). dtriple (reconnect_all (fst (connect_to_peer n nm 0 DialOk)) r []).
+    cbn [fst]. apply IH. now apply connect_to_peer_t.
+  - dpair (connect_to_peer n nm h0 res). dtriple (reconnect_all (fst (connect_to_peer n nm h0 res)) r dr).
+    cbn [fst]. apply IH. now apply connect_to_peer_t.
+Qed.
+
+Lemma io_iteration_t n0 n ds : trans md n0 n -> trans md n0 (fst (fst (io_iteration n ds))).
+Proof.
+  intros H. unfold io_iteration. dpair (timers_all n (List.map c_id (n_conns n))).
+  match goal with |- context [reconnect_all ?N ?L ?D] => dtriple (reconnect_all N L D) end.
+  cbn [fst]. eapply t_a; [apply A_time|]. apply reconnect_all_t. now apply timers_all_t.
+Qed.
+
+Lemma flush_conns_t cids : forall n0 n, trans md n0 n -> trans md n0 (fst (flush_conns n cids)).
+Proof.
+  induction cids as [|cid r IH]; intros n0 n H; cbn [flush_conns fst]; auto.
+  match goal with |- context [let '(n1, o1) := ?X in _] => 
+    assert (H1 : trans md n0 (fst X)); [|dpair X] end.
+  { destruct (get_conn n cid) as [c|]; auto. destruct (c_stalled c || negb (c_sock_open c)); auto.
+    assert (H2 : trans md n0 (set_conns n (upd_conn (n_conns n) cid (fun c => set_cout c [])))) by (t_soft; exact H).
+    destruct (c_out c); auto. destruct (cstate_eqb (c_state c) SClosing); auto.
+    match goal with |- context [close_conn ?N ?C ?R] => dpair (close_conn N C R) end. cbn [fst].
+    now apply close_conn_t. }
+  match goal with |- context [flush_conns ?N r] => dpair (flush_conns N r) end. cbn [fst].
+  apply IH. exact H1.
+Qed.
+
+Lemma flush_t n0 n : trans md n0 n -> trans md n0 (fst (flush n)).
+Proof. intros H. unfold flush. now apply flush_conns_t. Qed.
+
+Lemma settle_t n0 n ds : trans md n0 n -> trans md n0 (fst (fst (settle n ds))).
+Proof.
+  intros H. unfold settle. dpair (flush n).
+  match goal with |- context [io_iteration ?N ?D] => dtriple (io_iteration N D) end.
+  match goal with |- context [flush ?N] => dpair (flush N) end. cbn [fst].
+  apply flush_t. apply io_iteration_t. now apply flush_t.
+Qed.
+
+Lemma settle'_t n0 n ds : trans md n0 n -> trans md n0 (fst (settle' n ds)).
+Proof. intros H. unfold settle'. dtriple (settle n ds). cbn [fst]. now apply settle_t. Qed.
+
+End Prims.
+
+(* ---- the capabilities-exchange handlers: the only writers of identities ---- *)
+Definition cer_pre (md : mode) (n : node) (cid : nat) (host : string) : Prop :=
+  writes md cid /\
+  (guarded md -> forall c, get_conn n cid = Some c -> c_node_name c = host \/ c_node_name c = ""%string).
+Definition cea_pre (md : mode) (n : node) (cid : nat) (m : msg) : Prop :=
+  writes md cid /\
+  (guarded md -> forall o c, m_origin m = Present o -> get_conn n cid = Some c -> c_node_name c = o).
+Definition msg_pre (md : mode) (n : node) (cid : nat) (m : msg) : Prop :=
+  m_cmd m = CE ->
+  if m_req m then (forall host, m_origin m = Present host -> cer_pre md n cid host) else cea_pre md n cid m.
+
+Lemma match3 {T} (P : T -> Prop) (a b : list Z) (c : bool) (X Y : T) :
+  P X -> P Y -> P (match a, b, c with [], [], false => X | _, _, _ => Y end).
+Proof. destruct a, b, c; auto. Qed.
+
+Lemma match_2001 {T} (P : T -> Prop) (r : pres Z) (A B : T) :
+  P A -> P B -> P (match r with Present 2001%Z => A | _ => B end).
+Proof. intros HA HB. destruct r as [| |z]; auto. destruct z as [|p|p]; auto. do 11 (destruct p as [p|p|]; auto). Qed.
+
+Lemma get_conn_upd n cid f : keeps_id f ->
+  get_conn (set_conns n (upd_conn (n_conns n) cid f)) cid = option_map f (get_conn n cid).
+Proof. intros Hf. unfold get_conn. cbn. now apply find_upd_conn. Qed.
+
+Lemma keeps_id_name_fn host : keeps_id (name_fn host).
+Proof. intros c. unfold name_fn. destruct (String.eqb _ _); auto. Qed.
+
+Section Handlers.
+Variable md : mode.
+
+Lemma recv_cer_t n0 n cid m :
+  (forall host, m_origin m = Present host -> cer_pre md n cid host) ->
+  trans md n0 n -> trans md n0 (fst (recv_cer n cid m)).
+Proof.
+  intros Hpre H. unfold recv_cer. destruct (m_origin m) as [| |host] eqn:Eo; cbn [pres_get]; auto.
+  destruct (Hpre host eq_refl) as [Hq Hg].
+  destruct (get_peer n host) as [p|] eqn:Ep.
+  - assert (H1 : trans md n0 (set_conns n (upd_conn (n_conns n) cid (name_fn host)))).
+    { eapply t_a; [eapply A_name; eauto|exact H]. }
+    unfold name_fn in H1. cbv zeta.
+    apply (match3 (fun x => trans md n0 (fst x))).
+    + now apply send_message_t.
+    + apply send_message_t. apply flag_ready_t. apply assign_peer_conn_t.
+      eapply t_a; [|exact H1].
+      apply (A_host md _ cid host (fun _ => _) (fun _ => _)); auto.
+      intros Hmd c'. fold (name_fn host). rewrite get_conn_upd by apply keeps_id_name_fn.
+      destruct (get_conn n cid) as [c|] eqn:Ec; cbn; [|discriminate]. intros E; inversion E; subst c'.
+      unfold name_fn. destruct (Hg Hmd c eq_refl) as [D|D].
+      * destruct (String.eqb (c_node_name c) ""); cbn; auto.
+      * rewrite D. cbn. auto.
+  - cbv zeta. apply send_message_t. t_soft. exact H.
+Qed.
+
+Lemma recv_cea_t n0 n cid m : cea_pre md n cid m ->
+  trans md n0 n -> trans md n0 (fst (recv_cea n cid m)).
+Proof.
+  intros [Hq Hg] H. unfold recv_cea. apply (match_2001 (fun x => trans md n0 (fst x))).
+  - cbv zeta.
+    match goal with |- context [upd_conn (n_conns n) cid ?F] =>
+      assert (H1 : trans md n0 (set_conns n (upd_conn (n_conns n) cid F))) by (t_soft; exact H);
+      assert (Hk : keeps_id F) by (intro; reflexivity) end.
+    destruct (m_origin m) as [| |host] eqn:Eo; cbn [pres_get fst]; auto.
+    apply flag_ready_t. apply assign_peer_conn_t. eapply t_a; [|exact H1].
+    apply (A_host md _ cid host (fun c => c_auth c) (fun c => c_acct c)); auto.
+    intros Hmd c'. rewrite get_conn_upd by exact Hk.
+    destruct (get_conn n cid) as [c|] eqn:Ec; cbn; [|discriminate]. intros E; inversion E; subst c'.
+    cbn. eapply Hg; eauto.
+  - now apply close_conn_t.
+Qed.
+
+Lemma receive_message_t n0 n cid m : msg_pre md n cid m ->
+  trans md n0 n -> trans md n0 (fst (receive_message n cid m)).
+Proof.
+  intros Hpre H. unfold receive_message. cbv zeta.
+  match goal with |- context [g_validate (n_cfg ?N)] => set (n1 := N) end.
+  assert (Hc : get_conn n1 cid = get_conn n cid).
+  { subst n1. destruct (m_origin m); auto; destruct (m_req m); auto. }
+  assert (H1 : trans md n0 n1).
+  { subst n1. destruct (m_origin m); auto; destruct (m_req m); auto;
+      (eapply t_a; [apply A_wait|exact H]; [apply incl_refl|now left]). }
+  clearbody n1.
+  destruct (if m_req m && g_validate (n_cfg n1) then m_missing m else []); [|now apply send_message_t].
+  match goal with |- context [if ?b then _ else _] => destruct b end; [now apply send_message_t|].
+  unfold msg_pre, cer_pre, cea_pre in Hpre. rewrite <- Hc in Hpre.
+  destruct (m_req m), (m_cmd m).
+  - destruct (m_origin m) eqn:Eo; try now apply send_message_t.
+    apply recv_cer_t; auto. rewrite Eo. intros host E. apply (Hpre eq_refl host E).
+  - now apply recv_dwr_t.
+  - now apply recv_dpr_t.
+  - now apply recv_app_request_t.
+  - apply recv_cea_t; auto. apply (Hpre eq_refl).
+  - now apply recv_dwa_t.
+  - now apply recv_dpa_t.
+  - now apply recv_app_answer_t.
+Qed.
+
+Lemma dispatch_t n0 n cid m : msg_pre md n cid m ->
+  trans md n0 n -> trans md n0 (fst (dispatch n cid m)).
+Proof.
+  intros Hpre H. unfold dispatch. destruct (get_conn n cid) as [c|]; auto.
+  destruct (gate_passes c m); auto. now apply receive_message_t.
+Qed.
+
+Fixpoint msgs_pre (n : node) (cid : nat) (ms : list msg) : Prop :=
+  match ms with
+  | [] => True
+  | m :: r => msg_pre md n cid m /\ msgs_pre (fst (dispatch n cid m)) cid r
+  end.
+
+Lemma dispatch_all_t ms : forall n0 n cid, msgs_pre n cid ms ->
+  trans md n0 n -> trans md n0 (fst (dispatch_all n cid ms)).
+Proof.
+  induction ms as [|m r IH]; intros n0 n cid Hpre H; cbn [dispatch_all fst]; auto.
+  destruct Hpre as [Hm Hr]. dpair (dispatch n cid m). dpair (dispatch_all (fst (dispatch n cid m)) cid r).
+  cbn [fst]. apply IH; auto. now apply dispatch_t.
+Qed.
+
+End Handlers.
+
+(* ---- the step function ---- *)
+Definition ev_pre (md : mode) (n : node) (ds : dials) (e : event) : Prop :=
+  match e with
+  | ERecv cid ms => msgs_pre md (upd_last_read (fst (fst (io_iteration n ds))) cid) cid ms
+  | _ => True
+  end.
+
+Section Step.
+Variable md : mode.
+
+Lemma wake_t target : forall fuel n0 n ds acc, trans md n0 n ->
+  trans md n0 (fst ((fix wake (fuel : nat) (n : node) (ds : dials) (acc : list output) {struct fuel} : node * list output :=
+         let expire := fun (n : node) =>
+           set_apps n (List.map (fun a => set_awaiting a (List.filter (fun w => (target <? snd w)%Z) (a_waiting a))) (n_apps n)) in
+         match fuel with
+         | O => (expire (set_time n target (n_io_deadline n)), acc)
+         | S f =>
+             if (n_io_deadline n <=? target)%Z then
+               let n1 := set_time n (n_io_deadline n) (n_io_deadline n) in
+               let '(n2, o2, ds2) := settle n1 ds in
+               wake f n2 ds2 (acc ++ o2)%list
+             else (expire (set_time n target (n_io_deadline n)), acc)
+         end) fuel n ds acc)).
+Proof.
+  induction fuel as [|f IH]; intros n0 n ds acc H.
+  - cbn [fst]. eapply t_a; [apply A_apps|]. eapply t_a; [apply A_time|exact H].
+  - destruct (n_io_deadline n <=? target)%Z.
+    + cbv zeta. dtriple (settle (set_time n (n_io_deadline n) (n_io_deadline n)) ds).
+      apply IH. apply settle_t. eapply t_a; [apply A_time|exact H].
+    + cbn [fst]. eapply t_a; [apply A_apps|]. eapply t_a; [apply A_time|exact H].
+Qed.
+
+Lemma stop_go_t cids : forall n0 n acc, trans md n0 n ->
+  trans md n0 (fst ((fix go (cids : list nat) (n : node) (acc : list output) {struct cids} : node * list output :=
+             match cids with
+             | [] => (n, acc)
+             | c :: r => match get_conn n c with
+                         | Some cn => if is_ready_state (c_state cn)
+                                      then let '(n', o') := send_dpr n c in go r n' (acc ++ o')%list
+                                      else go r n acc
+                         | None => go r n acc
+                         end
+             end) cids n acc)).
+Proof.
+  induction cids as [|c r IH]; intros n0 n acc H; [exact H|].
+  destruct (get_conn n c) as [cn|]; [|now apply IH].
+  destruct (is_ready_state (c_state cn)); [|now apply IH].
+  dpair (send_dpr n c). apply IH. now apply send_dpr_t.
+Qed.
+
+Lemma finish_go_t cids : forall n0 n acc, trans md n0 n ->
+  trans md n0 (fst ((fix go (cids : list nat) (n : node) (acc : list output) {struct cids} : node * list output :=
+           match cids with
+           | [] => (n, acc)
+           | c :: r => let '(n', o') := close_conn n c R_SHUTDOWN in go r n' (acc ++ o')%list
+           end) cids n acc)).
+Proof.
+  induction cids as [|c r IH]; intros n0 n acc H; [exact H|].
+  dpair (close_conn n c R_SHUTDOWN). apply IH. now apply close_conn_t.
+Qed.
+
+Lemma start_go_t names : forall n0 n ds acc, trans md n0 n ->
+  trans md n0 (fst (fst ((fix go (names : list string) (n : node) (ds : dials) (acc : list output) {struct names} : node * list output * dials :=
+           match names with
+           | [] => (n, acc, ds)
+           | nm :: r =>
+               match get_peer n nm with
+               | Some p =>
+                   if p_persistent p then
+                     match ds with
+                     | (h0, res) :: dr => let '(n1, o1) := connect_to_peer n nm h0 res in go r n1 dr (acc ++ o1)%list
+                     | [] => let '(n1, o1) := connect_to_peer n nm 0%Z DialOk in go r n1 [] (acc ++ o1)%list
+                     end
+                   else go r n ds acc
+               | None => go r n ds acc
+               end
+           end) names n ds acc))).
+Proof.
+  induction names as [|nm r IH]; intros n0 n ds acc H; [exact H|].
+  destruct (get_peer n nm) as [p|]; [|now apply IH].
+  destruct (p_persistent p); [|now apply IH].
+  destruct ds as [|[h0 res] dr].
+  - dpair (connect_to_peer n nm 0%Z DialOk). apply IH. now apply connect_to_peer_t.
+  - dpair (connect_to_peer n nm h0 res). apply IH. now apply connect_to_peer_t.
+Qed.
+
+Lemma step_t n0 n ds e : ev_pre md n ds e -> trans md n0 n -> trans md n0 (fst (step n ds e)).
+Proof.
+  intros Hpre H. destruct e; unfold step.
+  - (* EAccept *)
+    assert (H1 : trans md n0 (accept_conn n hbh0)) by (eapply t_a; [apply A_new_in|exact H]).
+    unfold accept_conn in H1.
+    destruct (n_stopping n); cbn [fst].
+    + eapply t_a; [apply A_misc; lia|exact H].
+    + apply settle'_t. exact H1.
+  - (* ERecv *)
+    destruct (get_conn n cid); auto. cbn [ev_pre] in Hpre.
+    dtriple (io_iteration n ds).
+    match goal with |- context [dispatch_all ?N cid ms] => dpair (dispatch_all N cid ms) end.
+    match goal with |- context [settle' ?N ?D] => dpair (settle' N D) end. cbn [fst].
+    apply settle'_t. apply dispatch_all_t; auto.
+    unfold upd_last_read. t_soft. now apply io_iteration_t.
+  - (* EPeerClose *)
+    dpair (close_conn n cid R_GONE). match goal with |- context [settle' ?N ?D] => dpair (settle' N D) end. cbn [fst].
+    apply settle'_t. now apply close_conn_t.
+  - (* EReadErr *)
+    match goal with |- context [let '(n1, o1) := ?X in _] => assert (H1 : trans md n0 (fst X)); [|dpair X] end.
+    { destruct hard; auto. now apply close_conn_t. }
+    match goal with |- context [settle' ?N ?D] => dpair (settle' N D) end. cbn [fst].
+    now apply settle'_t.
+  - (* EConnDone *)
+    destruct (get_conn n cid) as [c|]; auto. destruct (cstate_eqb (c_state c) SConnecting); auto.
+    destruct ok.
+    + cbv zeta.
+      match goal with |- context [send_cer ?N cid] => assert (H1 : trans md n0 N); [|dpair (send_cer N cid)] end.
+      { match goal with |- trans _ _ (match find_conn_peer ?N c with _ => _ end) =>
+          assert (H2 : trans md n0 N) by (t_soft; exact H) end.
+        destruct (find_conn_peer _ c); auto.
+        eapply t_a; [apply A_peer_soft|exact H2]. intros q; cbn. repeat split; auto. }
+      match goal with |- context [io_iteration ?N ?D] => dtriple (io_iteration N D) end.
+      match goal with |- context [settle' ?N ?D] => dpair (settle' N D) end. cbn [fst].
+      apply settle'_t. apply io_iteration_t. now apply send_cer_t.
+    + dpair (close_conn n cid R_FAILED_CONNECT).
+      match goal with |- context [settle' ?N ?D] => dpair (settle' N D) end. cbn [fst].
+      apply settle'_t. now apply close_conn_t.
+  - (* EStall *)
+    destruct (get_conn n cid) as [c|]; auto. cbv zeta.
+    match goal with |- context [settle' ?N ds] => assert (H1 : trans md n0 N) by (t_soft; exact H) end.
+    destruct b; auto. destruct (c_out c); auto. now apply settle'_t.
+  - (* ETick *)
+    exact (wake_t (n_now n + dt)%Z (S (Z.to_nat dt)) n0 n ds [] H).
+  - (* EAppAnswer *)
+    unfold route_answer. destruct (List.find _ (n_peer_waiting n)) as [[host l]|]; cbn [fst]; auto.
+    match goal with |- context [List.find _ (n_conns ?N)] => assert (H1 : trans md n0 N) end.
+    { eapply t_a; [apply A_wait|exact H]. rewrite map_fst_pw_remove. apply incl_refl. now left. }
+    destruct (List.find _ (n_conns _)) as [c|]; cbn [fst]; auto.
+    destruct (is_ready_state (c_state c)); cbn [fst]; auto.
+    match goal with |- context [send_message ?N ?C ?M] => dpair (send_message N C M) end.
+    match goal with |- context [settle' ?N ?D] => dpair (settle' N D) end. cbn [fst].
+    apply settle'_t. now apply send_message_t.
+  - (* EAppRequest *)
+    match goal with |- context [let '(n0, e2e) := ?X in _] => assert (H1 : trans md n0 (fst X)); [|destruct X as [n1 e2e]; cbn [fst] in H1] end.
+    { destruct (o_e2e m =? 0)%Z; cbn [fst]; auto. eapply t_a; [apply A_misc; lia|exact H]. }
+    destruct (route_request n1 app realm) as [[|p0 l]|]; auto.
+    match goal with |- context [match ?X with Some p => _ | None => (n1, [ONotRoutable]) end] => destruct X as [p|]; auto end.
+    destruct (p_conn p) as [cid|]; auto. destruct (get_conn n1 cid) as [c|]; auto.
+    match goal with |- context [let '(n1, hbh) := ?X in _] => assert (H2 : trans md n0 (fst X)); [|destruct X as [n2 hbh]; cbn [fst] in H2] end.
+    { destruct (o_hbh m =? 0)%Z; cbn [fst]; auto. t_soft. exact H1. }
+    cbv zeta.
+    match goal with |- context [send_message ?N ?C ?M] => dpair (send_message N C M) end.
+    match goal with |- context [settle' ?N ?D] => dpair (settle' N D) end. cbn [fst].
+    apply settle'_t. apply send_message_t. eapply t_a; [apply A_apps|].
+    eapply t_a; [apply A_wait|exact H2]. apply incl_refl. now left.
+  - (* EStop *)
+    cbv zeta. assert (H1 : trans md n0 (set_misc n true (n_next_cid n) (n_e2e n))) by (eapply t_a; [apply A_misc; lia|exact H]).
+    destruct force; auto.
+    match goal with |- context [let '(n1, o1) := ?X in _] => assert (H2 : trans md n0 (fst X)); [|dpair X] end.
+    { now apply stop_go_t. }
+    match goal with |- context [settle' ?N ?D] => dpair (settle' N D) end. cbn [fst].
+    now apply settle'_t.
+  - (* EStopFinish *)
+    cbv zeta.
+    match goal with |- context [let '(n1, o1) := ?X in _] => assert (H2 : trans md n0 (fst X)); [|dpair X] end.
+    { apply finish_go_t. eapply t_a; [apply A_time|exact H]. }
+    cbn [fst]. eapply t_a; [apply A_time|]. eapply t_a; [apply A_apps|]. exact H2.
+  - (* EStart *)
+    match goal with |- trans _ _ (fst (match ?X with _ => _ end)) => assert (H2 : trans md n0 (fst (fst X))); [|dtriple X] end.
+    { now apply start_go_t. }
+    match goal with |- context [settle' ?N ?D] => dpair (settle' N D) end. cbn [fst].
+    now apply settle'_t.
+Qed.
+
+End Step.
+
+(* ---------------------------------------------------------------------------------------- *)
+(* 3. runs                                                                                    *)
+(* ---------------------------------------------------------------------------------------- *)
+Definition wf_init (n : node) : Prop :=
+  n_conns n = [] /\ n_half_ready n = [] /\ n_socket_peers n = [] /\ n_peer_waiting n = [] /\
+  n_app_waiting n = [] /\ n_origin_waiting n = [] /\ n_sent_answers n = [] /\
+  (forall p, List.In p (n_peers n) -> p_conn p = None /\ p_reason p = None /\ p_lastdisc p = None) /\
+  NoDup (List.map p_name (n_peers n)) /\ n_next_cid n = 0.
+
+Definition reach (n0 n : node) : Prop := exists evs : list (dials * event), wf_init n0 /\ n = fst (run n0 evs).
+
+Lemma run_acc evs : forall n o1 o2,
+  fst (List.fold_left (fun acc de => let '(n, outs) := acc in
+         let '(n', o) := step n (fst de) (snd de) in (n', (outs ++ [o])%list)) evs (n, o1)) =
+  fst (List.fold_left (fun acc de => let '(n, outs) := acc in
+         let '(n', o) := step n (fst de) (snd de) in (n', (outs ++ [o])%list)) evs (n, o2)).
+Proof.
+  induction evs as [|de r IH]; intros n o1 o2; cbn [List.fold_left fst]; auto.
+  destruct (step n (fst de) (snd de)) as [n' o]. apply IH.
+Qed.
+
+Lemma run_cons n de r : fst (run n (de :: r)) = fst (run (fst (step n (fst de) (snd de))) r).
+Proof.
+  unfold run. cbn [List.fold_left]. destruct (step n (fst de) (snd de)) as [n' o]. cbn [fst]. apply run_acc.
+Qed.
+
+Lemma run_nil n : fst (run n []) = n.
+Proof. reflexivity. Qed.
+
+Fixpoint evs_pre (md : mode) (n : node) (evs : list (dials * event)) : Prop :=
+  match evs with
+  | [] => True
+  | de :: r => ev_pre md n (fst de) (snd de) /\ evs_pre md (fst (step n (fst de) (snd de))) r
+  end.
+
+Lemma ev_pre_any n ds e : ev_pre MAny n ds e.
+Proof.
+  destruct e; cbn; auto. generalize (upd_last_read (fst (fst (io_iteration n ds))) cid). intros n1.
+  revert n1. induction ms as [|m r IH]; intros n1; cbn; auto. split; auto.
+  unfold msg_pre, cer_pre, cea_pre. intros _. destruct (m_req m); intros; split; cbn; tauto.
+Qed.
+
+Lemma run_t md evs : forall n0 n, evs_pre md n evs -> trans md n0 n -> trans md n0 (fst (run n evs)).
+Proof.
+  induction evs as [|de r IH]; intros n0 n Hpre H; [exact H|].
+  destruct Hpre as [H1 H2]. rewrite run_cons. apply IH; auto. now apply step_t.
+Qed.
+
+Lemma evs_pre_any evs : forall n, evs_pre MAny n evs.
+Proof. induction evs; cbn; auto. intros n. split; auto. apply ev_pre_any. Qed.
+
+(* an invariant of the atomic transitions is an invariant of every run *)
+Lemma trans_inv md (P : node -> Prop) :
+  (forall n n', astep md n n' -> P n -> P n') -> forall n n', trans md n n' -> P n -> P n'.
+Proof. intros HP n n' H. induction H; eauto. Qed.
+
+Lemma reach_inv (P : node -> Prop) :
+  (forall n, wf_init n -> P n) -> (forall n n', astep MAny n n' -> P n -> P n') ->
+  forall n0 n, reach n0 n -> P n.
+Proof.
+  intros Hi Hs n0 n [evs [Hw E]]. subst n.
+  eapply (trans_inv MAny P Hs n0); [|auto]. apply run_t; [apply evs_pre_any|constructor].
+Qed.
+
+(* ---------------------------------------------------------------------------------------- *)
+(* 4. projections of remove_conn                                                              *)
+(* ---------------------------------------------------------------------------------------- *)
+Definition clear_fn (reason now : Z) : peer -> peer :=
+  fun p => set_pconn p None (match p_reason p with Some r => Some r | None => Some reason end)
+                     (p_lastconn p) (Some now).
+
+Definition removed_peers (n : node) (cid : nat) (r : Z) (c : conn) : list peer :=
+  match find_conn_peer n c with
+  | Some p => match p_conn p with
+              | Some k => if Nat.eqb k cid then upd_peer (n_peers n) (p_name p) (clear_fn r (n_now n)) else n_peers n
+              | None => n_peers n
+              end
+  | None => n_peers n
+  end.
+
+Section RemoveProj.
+Variables (n : node) (cid : nat) (r : Z) (c : conn).
+Hypothesis Hget : get_conn n cid = Some c.
+
+Ltac rc := unfold remove_conn, removed_peers; rewrite Hget;
+           destruct (find_conn_peer n c) as [p|]; [destruct (p_conn p) as [k|]; [destruct (Nat.eqb k cid)|]|]; reflexivity.
+
+Lemma rc_conns : n_conns (remove_conn n cid r) = List.filter (fun x => negb (Nat.eqb (c_id x) cid)) (n_conns n).
+Proof. rc. Qed.
+Lemma rc_next : n_next_cid (remove_conn n cid r) = n_next_cid n.
+Proof. rc. Qed.
+Lemma rc_cfg : n_cfg (remove_conn n cid r) = n_cfg n.
+Proof. rc. Qed.
+Lemma rc_now : n_now (remove_conn n cid r) = n_now n.
+Proof. rc. Qed.
+Lemma rc_hr : n_half_ready (remove_conn n cid r) = remove_nat cid (n_half_ready n).
+Proof. rc. Qed.
+Lemma rc_sp : n_socket_peers (remove_conn n cid r) = remove_nat cid (n_socket_peers n).
+Proof. rc. Qed.
+Lemma rc_sa : n_sent_answers (remove_conn n cid r) = n_sent_answers n.
+Proof. rc. Qed.
+Lemma rc_pw : n_peer_waiting (remove_conn n cid r) =
+  List.filter (fun e => negb (String.eqb (fst e) (c_host c))) (n_peer_waiting n).
+Proof. rc. Qed.
+Lemma rc_routes : n_routes (remove_conn n cid r) = n_routes n.
+Proof. rc. Qed.
+Lemma rc_peers : n_peers (remove_conn n cid r) = removed_peers n cid r c.
+Proof. rc. Qed.
+End RemoveProj.
+
+Lemma in_upd_peer_find l nm f p' :
+  List.In p' (upd_peer l nm f) ->
+  List.In p' l \/ exists p, List.find (fun p => String.eqb (p_name p) nm) l = Some p /\ p' = f p.
+Proof.
+  induction l as [|a l IH]; cbn; [tauto|].
+  destruct (String.eqb (p_name a) nm) eqn:E; cbn.
+  - intros [H|H]; [right; exists a; auto|auto].
+  - intros [H|H]; [auto|]. destruct (IH H) as [H1|[q [H1 H2]]]; [auto|right; exists q; auto].
+Qed.
+
+Lemma find_conn_peer_some n c p : find_conn_peer n c = Some p ->
+  get_peer n (p_name p) = Some p /\ List.In p (n_peers n) /\ (p_name p = c_node_name c \/ p_name p = c_host c).
+Proof.
+  unfold find_conn_peer. destruct (get_peer n (c_node_name c)) as [q|] eqn:E.
+  - intros H; inversion H; subst q. destruct (get_peer_some _ _ _ E) as [H1 H2]. rewrite H2. auto.
+  - intros H. destruct (get_peer_some _ _ _ H) as [H1 H2]. rewrite H2. auto.
+Qed.
+
+Lemma in_removed_peers n cid r c p' :
+  List.In p' (removed_peers n cid r c) ->
+  List.In p' (n_peers n) \/
+  exists p, find_conn_peer n c = Some p /\ p' = clear_fn r (n_now n) p /\ p_conn p = Some cid.
+Proof.
+  unfold removed_peers. destruct (find_conn_peer n c) as [p|] eqn:Ef; auto.
+  destruct (p_conn p) as [k|] eqn:Ek; auto. destruct (Nat.eqb k cid) eqn:E; auto.
+  apply Nat.eqb_eq in E. subst k. intros H.
+  apply in_upd_peer_find in H. destruct H as [H|[q [H1 H2]]]; auto.
+  right. exists p. apply find_conn_peer_some in Ef. destruct Ef as [Ef _].
+  unfold get_peer in Ef. rewrite Ef in H1. inversion H1; subst q. auto.
+Qed.
+
+Lemma map_name_removed_peers n cid r c : List.map p_name (removed_peers n cid r c) = List.map p_name (n_peers n).
+Proof.
+  unfold removed_peers. destruct (find_conn_peer n c) as [p|]; auto.
+  destruct (p_conn p) as [k|]; auto. destruct (Nat.eqb k cid); auto.
+  apply map_name_upd_peer. intro; reflexivity.
+Qed.
+
+(* ---------------------------------------------------------------------------------------- *)
+(* 5. unconditional invariants                                                                *)
+(* ---------------------------------------------------------------------------------------- *)
+(* 5.0 what never changes *)
+Lemma astep_const md n n' : astep md n n' ->
+  n_cfg n' = n_cfg n /\ List.map p_name (n_peers n') = List.map p_name (n_peers n) /\ n_routes n' = n_routes n.
+Proof.
+  intros H. destruct H; cbn; auto.
+  - split; auto. split; auto. apply map_name_upd_peer. intro q. apply H.
+  - split; auto. split; auto. apply map_name_upd_peer. intro q. reflexivity.
+  - erewrite rc_cfg, rc_peers, rc_routes by eauto. rewrite map_name_removed_peers. auto.
+  - split; auto. split; auto. apply map_name_upd_peer. intro q. reflexivity.
+Qed.
+
+(* 5.1 connection ids *)
+Definition P_ids (n : node) : Prop :=
+  NoDup (List.map c_id (n_conns n)) /\ (forall c, List.In c (n_conns n) -> c_id c < n_next_cid n).
+
+Lemma P_ids_upd n cid f : keeps_id f -> P_ids n -> P_ids (set_conns n (upd_conn (n_conns n) cid f)).
+Proof.
+  intros Hf [H1 H2]. split; cbn.
+  - now rewrite map_id_upd_conn.
+  - intros c' Hin. apply in_upd_conn in Hin. destruct Hin as [Hin|[c [Hin [E _]]]]; auto.
+    subst c'. rewrite Hf. auto.
+Qed.
+
+Lemma P_ids_new n c : c_id c = n_next_cid n -> P_ids n ->
+  NoDup (List.map c_id (n_conns n ++ [c])) /\ (forall x, List.In x (n_conns n ++ [c]) -> c_id x < S (n_next_cid n)).
+Proof.
+  intros E [H1 H2]. split.
+  - rewrite map_app. cbn. apply NoDup_app_fresh; auto. intro Hin. apply in_map_iff in Hin.
+    destruct Hin as [x [Ex Hin]]. apply H2 in Hin. lia.
+  - intros x Hin. apply in_app_iff in Hin. destruct Hin as [Hin|[Hin|[]]]; [apply H2 in Hin; lia|subst; lia].
+Qed.
+
+Lemma keeps_id_host host au ac : keeps_id (fun c => set_cident c (c_node_name c) host (au c) (ac c)).
+Proof. intro; reflexivity. Qed.
+
+Lemma astep_ids md n n' : astep md n n' -> P_ids n -> P_ids n'.
+Proof.
+  intros H Hi. destruct H; try exact Hi.
+  - apply P_ids_upd; auto. now apply soft_keeps.
+  - apply P_ids_upd; auto. apply keeps_id_name_fn.
+  - apply P_ids_upd; auto. apply keeps_id_host.
+  - destruct Hi as [H1 H2]. split.
+    + erewrite rc_conns by eauto. now apply NoDup_map_filter.
+    + erewrite rc_conns, rc_next by eauto. intros x Hin. apply filter_In in Hin. apply H2. tauto.
+  - destruct Hi as [H1 H2]. split; cbn; auto. intros c Hc. apply H2 in Hc. lia.
+  - unfold accept_conn. apply (P_ids_new n (new_conn (n_next_cid n) true SConnected "" (n_now n) h) eq_refl Hi).
+  - unfold dial_conn. apply (P_ids_new n (new_conn (n_next_cid n) false SConnecting name (n_now n) h) eq_refl Hi).
+Qed.
+
+(* 5.2 peer names *)
+Definition P_names (n : node) : Prop := NoDup (List.map p_name (n_peers n)).
+Lemma astep_names md n n' : astep md n n' -> P_names n -> P_names n'.
+Proof. intros H. unfold P_names. destruct (astep_const _ _ _ H) as [_ [E _]]. now rewrite E. Qed.
+
+(* 5.3 _half_ready_connections and socket_peers *)
+Definition P_tabs (n : node) : Prop :=
+  (forall x, List.In x (n_half_ready n) -> List.In x (List.map c_id (n_conns n))) /\ NoDup (n_half_ready n) /\
+  (forall x, List.In x (n_socket_peers n) -> List.In x (List.map c_id (n_conns n))) /\ NoDup (n_socket_peers n).
+
+Lemma P_tabs_upd n cid f : keeps_id f -> P_tabs n -> P_tabs (set_conns n (upd_conn (n_conns n) cid f)).
+Proof. intros Hf H. unfold P_tabs. cbn. now rewrite map_id_upd_conn. Qed.
+
+Lemma fresh_not_in n l : P_ids n -> (forall x, List.In x l -> List.In x (List.map c_id (n_conns n))) -> ~ List.In (n_next_cid n) l.
+Proof.
+  intros [_ H2] Hs Hin. apply Hs in Hin. apply in_map_iff in Hin. destruct Hin as [c [E Hin]].
+  apply H2 in Hin. lia.
+Qed.
+
+Lemma astep_tabs md n n' : astep md n n' -> P_ids n -> P_tabs n -> P_tabs n'.
+Proof.
+  intros H Hi Ht. destruct H; try exact Ht.
+  - apply P_tabs_upd; auto. now apply soft_keeps.
+  - apply P_tabs_upd; auto. apply keeps_id_name_fn.
+  - apply P_tabs_upd; auto. apply keeps_id_host.
+  - destruct Ht as [H1 [H2 [H3 H4]]]. split; [|split; [|split]]; cbn; auto.
+    + intros y Hy. apply in_remove_nat in Hy. apply H1. tauto.
+    + now apply NoDup_filter'.
+  - destruct Ht as [H1 [H2 [H3 H4]]]. unfold P_tabs. erewrite rc_conns, rc_hr, rc_sp by eauto.
+    assert (Hf : forall l, (forall x, List.In x l -> List.In x (List.map c_id (n_conns n))) ->
+              forall x, List.In x (remove_nat cid l) ->
+              List.In x (List.map c_id (List.filter (fun x => negb (Nat.eqb (c_id x) cid)) (n_conns n)))).
+    { intros l Hl x Hx. apply in_remove_nat in Hx. destruct Hx as [Hx Hne]. apply Hl in Hx.
+      apply in_map_iff in Hx. destruct Hx as [y [E Hy]]. apply in_map_iff. exists y. split; auto.
+      apply filter_In. split; auto. apply negb_true_iff. apply Nat.eqb_neq. congruence. }
+    split; [apply Hf; auto|]. split; [now apply NoDup_filter'|]. split; [apply Hf; auto|now apply NoDup_filter'].
+  - (* accept *)
+    destruct Ht as [H1 [H2 [H3 H4]]]. unfold accept_conn, P_tabs. cbn. rewrite map_app. cbn.
+    assert (Hs : forall l, (forall x, List.In x l -> List.In x (List.map c_id (n_conns n))) ->
+                 forall x, List.In x (l ++ [n_next_cid n]) -> List.In x (List.map c_id (n_conns n) ++ [n_next_cid n])).
+    { intros l Hl x Hx. apply in_app_iff in Hx. apply in_app_iff. destruct Hx; auto. }
+    split; [apply Hs; auto|]. split; [apply NoDup_app_fresh; auto; eapply fresh_not_in; eauto|].
+    split; [apply Hs; auto|apply NoDup_app_fresh; auto; eapply fresh_not_in; eauto].
+  - destruct Ht as [H1 [H2 [H3 H4]]]. unfold dial_conn, P_tabs. cbn. rewrite map_app. cbn.
+    split; [|split; [auto|split]].
+    + intros x Hx. apply in_app_iff. auto.
+    + intros x Hx. apply in_app_iff in Hx. apply in_app_iff. destruct Hx; auto.
+    + apply NoDup_app_fresh; auto; eapply fresh_not_in; eauto.
+Qed.
+
+(* 5.4 disconnect reason *)
+Definition P_reason (n : node) : Prop :=
+  forall p, List.In p (n_peers n) -> p_conn p = None -> p_lastdisc p <> None -> p_reason p <> None.
+
+Lemma in_upd_peer_weak l nm f p' :
+  List.In p' (upd_peer l nm f) -> List.In p' l \/ exists p, List.In p l /\ p' = f p.
+Proof.
+  intros H. apply in_upd_peer_find in H. destruct H as [H|[p [H1 H2]]]; auto.
+  right. exists p. apply find_some in H1. tauto.
+Qed.
+
+Lemma astep_reason md n n' : astep md n n' -> P_reason n -> P_reason n'.
+Proof.
+  intros H Hr. destruct H; try exact Hr.
+  - intros p' Hin. cbn in Hin. apply in_upd_peer_weak in Hin. destruct Hin as [Hin|[p [Hin E]]]; auto.
+    subst p'. destruct (H p) as [_ [E1 [E2 E3]]]. rewrite E1, E2. intros A B.
+    destruct E3 as [E3|E3]; auto. rewrite E3. auto.
+  - intros p' Hin. cbn in Hin. apply in_upd_peer_weak in Hin. destruct Hin as [Hin|[q [Hin E]]]; auto.
+    subst p'. unfold assign_fn. cbn. destruct (p_conn q); discriminate.
+  - intros p' Hin. erewrite rc_peers in Hin by eauto. apply in_removed_peers in Hin.
+    destruct Hin as [Hin|[p [_ [E _]]]]; auto. subst p'. unfold clear_fn. cbn.
+    intros _ _. destruct (p_reason p); discriminate.
+  - intros p' Hin. unfold dial_conn in Hin. cbn in Hin. apply in_upd_peer_weak in Hin.
+    destruct Hin as [Hin|[q [Hin E]]]; auto. subst p'. cbn. discriminate.
+Qed.
+
+(* 5.5 the retransmission windows *)
+Definition P_sa (n : node) : Prop :=
+  (forall o l, List.In (o, l) (n_sent_answers n) -> List.length l <= g_rsize (n_cfg n)) /\
+  NoDup (List.map fst (n_sent_answers n)).
+
+Lemma bounded_append_len k l x : List.length (bounded_append k l x) <= k.
+Proof. unfold bounded_append. rewrite skipn_length. lia. Qed.
+
+Local Arguments bounded_append : simpl never.
+
+Lemma sa_append_len k sa o e :
+  (forall o' l, List.In (o', l) sa -> List.length l <= k) ->
+  forall o' l, List.In (o', l) (sa_append k sa o e) -> List.length l <= k.
+Proof.
+  induction sa as [|[o1 l1] r IH]; cbn; intros Hs o' l.
+  - intros [H|[]]. inversion H; subst. apply bounded_append_len.
+  - destruct (String.eqb o1 o); cbn.
+    + intros [H|H]; [inversion H; subst; apply bounded_append_len|eauto].
+    + intros [H|H]; [inversion H; subst; eauto|]. eapply IH; eauto.
+Qed.
+
+Lemma sa_append_keys k sa o e :
+  List.map fst (sa_append k sa o e) = List.map fst sa \/
+  (~ List.In o (List.map fst sa) /\ List.map fst (sa_append k sa o e) = (List.map fst sa ++ [o])%list).
+Proof.
+  induction sa as [|[o1 l1] r IH]; cbn.
+  - right. split; auto.
+  - destruct (String.eqb o1 o) eqn:E; cbn; auto.
+    apply String.eqb_neq in E. destruct IH as [IH|[IH1 IH2]].
+    + left. now rewrite IH.
+    + right. split; [|now rewrite IH2]. intros [H|H]; auto.
+Qed.
+
+Lemma astep_sa md n n' : astep md n n' -> P_sa n -> P_sa n'.
+Proof.
+  intros H Hs. destruct H; try exact Hs.
+  - destruct H0 as [E|[o [e E]]]; subst sa; [exact Hs|]. destruct Hs as [H1 H2]. split; cbn.
+    + now apply sa_append_len.
+    + destruct (sa_append_keys (g_rsize (n_cfg n)) (n_sent_answers n) o e) as [E|[E1 E2]].
+      * now rewrite E.
+      * rewrite E2. now apply NoDup_app_fresh.
+  - unfold P_sa. erewrite rc_sa, rc_cfg by eauto. exact Hs.
+Qed.
+
+(* 5.6 together *)
+Definition W (n : node) : Prop := P_ids n /\ P_names n /\ P_tabs n /\ P_reason n /\ P_sa n.
+
+Lemma astep_W md n n' : astep md n n' -> W n -> W n'.
+Proof.
+  intros H [H1 [H2 [H3 [H4 H5]]]]. repeat split.
+  - eapply astep_ids; eauto. - eapply astep_ids; eauto. - eapply astep_names; eauto.
+  - eapply astep_tabs; eauto. - eapply astep_tabs; eauto. - eapply astep_tabs; eauto. - eapply astep_tabs; eauto.
+  - eapply astep_reason; eauto. - eapply astep_sa; eauto. - eapply astep_sa; eauto.
+Qed.
+
+Lemma W_init n : wf_init n -> W n.
+Proof.
+  intros [H1 [H2 [H3 [H4 [H5 [H6 [H7 [H8 [H9 H10]]]]]]]]]. unfold W, P_ids, P_names, P_tabs, P_reason, P_sa.
+  rewrite H1, H2, H3, H7. cbn. repeat split; auto; try constructor; try tauto.
+  intros p Hp Hc Hd. apply H8 in Hp. tauto.
+Qed.
+
+Lemma trans_W md n n' : trans md n n' -> W n -> W n'.
+Proof. apply trans_inv. apply astep_W. Qed.
+
+Lemma reach_trans n0 n : reach n0 n -> wf_init n0 /\ trans MAny n0 n.
+Proof.
+  intros [evs [Hw E]]. subst n. split; auto. apply run_t; [apply evs_pre_any|constructor].
+Qed.
+
+Lemma reach_W n0 n : reach n0 n -> W n.
+Proof. intros H. apply reach_trans in H. destruct H as [Hw H]. eapply trans_W; eauto. now apply W_init. Qed.
+
+Lemma trans_const md n n' : trans md n n' ->
+  n_cfg n' = n_cfg n /\ List.map p_name (n_peers n') = List.map p_name (n_peers n) /\ n_routes n' = n_routes n.
+Proof.
+  intros H. induction H; auto. apply astep_const in H0. destruct IHtrans as [A [B C]], H0 as [A' [B' C']].
+  repeat split; congruence.
+Qed.
+
+(* ---- invariant 1 ---- *)
+Theorem I_ids : forall n0 n, reach n0 n ->
+  NoDup (List.map c_id (n_conns n)) /\
+  (forall c, List.In c (n_conns n) -> c_id c < n_next_cid n) /\
+  NoDup (List.map p_name (n_peers n)) /\
+  List.map p_name (n_peers n) = List.map p_name (n_peers n0).
+Proof.
+  intros n0 n H. destruct (reach_W _ _ H) as [[H1 H2] [H3 _]]. apply reach_trans in H.
+  destruct H as [_ H]. apply trans_const in H. repeat split; auto. tauto.
+Qed.
+
+(* ---- invariant 2 (C13 / C19: the id tables) ---- *)
+Theorem C13_tables_subset : forall n0 n, reach n0 n ->
+  (forall x, List.In x (n_half_ready n) -> List.In x (List.map c_id (n_conns n))) /\ NoDup (n_half_ready n) /\
+  (forall x, List.In x (n_socket_peers n) -> List.In x (List.map c_id (n_conns n))) /\ NoDup (n_socket_peers n).
+Proof. intros n0 n H. apply reach_W in H. apply H. Qed.
+
+(* close_conn removes the id from the three tables (no reachability needed) *)
+Theorem C13_closed_nowhere : forall n cid r c, get_conn n cid = Some c ->
+  let n' := fst (close_conn n cid r) in
+  snd (close_conn n cid r) = [OClose cid r] /\
+  ~ List.In cid (List.map c_id (n_conns n')) /\ ~ List.In cid (n_half_ready n') /\ ~ List.In cid (n_socket_peers n').
+Proof.
+  intros n cid r c H. unfold close_conn. rewrite H. cbn [fst snd]. split; auto.
+  erewrite rc_conns, rc_hr, rc_sp by eauto. repeat split.
+  - intros Hin. apply in_map_iff in Hin. destruct Hin as [x [E Hin]]. apply filter_In in Hin.
+    destruct Hin as [_ Hin]. rewrite E, Nat.eqb_refl in Hin. discriminate.
+  - intros Hin. apply in_remove_nat in Hin. tauto.
+  - intros Hin. apply in_remove_nat in Hin. tauto.
+Qed.
+
+(* ... and a closed id never comes back: ids are not reused *)
+Definition dead (cid : nat) (n : node) : Prop := cid < n_next_cid n /\ ~ List.In cid (List.map c_id (n_conns n)).
+
+Lemma astep_dead md cid n n' : astep md n n' -> dead cid n -> dead cid n'.
+Proof.
+  intros H [H1 H2]. destruct H; try (split; assumption); unfold dead; cbn.
+  - rewrite map_id_upd_conn; auto. now apply soft_keeps.
+  - rewrite map_id_upd_conn; auto. apply keeps_id_name_fn.
+  - rewrite map_id_upd_conn; auto. apply keeps_id_host.
+  - erewrite rc_next, rc_conns by eauto. split; auto. intro Hin. apply H2.
+    eapply incl_map_filter; eauto.
+  - split; [lia|auto].
+  - rewrite map_app. cbn. split; [lia|]. intro Hin. apply in_app_iff in Hin. destruct Hin as [Hin|[Hin|[]]]; [auto|lia].
+  - rewrite map_app. cbn. split; [lia|]. intro Hin. apply in_app_iff in Hin. destruct Hin as [Hin|[Hin|[]]]; [auto|lia].
+Qed.
+
+Theorem C13_closed_stays_closed : forall n0 n cid r c evs, reach n0 n -> get_conn n cid = Some c ->
+  let n' := fst (run (fst (close_conn n cid r)) evs) in
+  ~ List.In cid (List.map c_id (n_conns n')) /\ ~ List.In cid (n_half_ready n') /\ ~ List.In cid (n_socket_peers n').
+Proof.
+  intros n0 n cid r c evs Hr Hg n'.
+  assert (HW : W n) by (eapply reach_W; eauto).
+  assert (Ht : trans MAny n n').
+  { subst n'. apply run_t; [apply evs_pre_any|]. apply close_conn_t. constructor. }
+  assert (Hd : dead cid n').
+  { subst n'. eapply (trans_inv MAny (dead cid)); [intros; eapply astep_dead; eauto| |].
+    - apply run_t; [apply evs_pre_any|constructor].
+    - destruct (C13_closed_nowhere n cid r c Hg) as [_ [A _]]. split; auto.
+      unfold close_conn. rewrite Hg. cbn [fst]. erewrite rc_next by eauto.
+      destruct HW as [[_ Hlt] _]. apply get_conn_some in Hg. destruct Hg as [Hin E]. apply Hlt in Hin. lia. }
+  destruct (trans_W _ _ _ Ht HW) as [_ [_ [[T1 [_ [T3 _]]] _]]]. destruct Hd as [_ Hd]. repeat split; auto.
+Qed.
+
+(* ---- invariant 5 (C13: disconnect reason) ---- *)
+Theorem C13_reason_set : forall n0 n, reach n0 n ->
+  forall p, List.In p (n_peers n) -> p_conn p = None /\ p_lastdisc p <> None -> p_reason p <> None.
+Proof. intros n0 n H p Hp [A B]. apply reach_W in H. destruct H as [_ [_ [_ [H _]]]]. now apply H. Qed.
+
+Lemma find_upd_peer l nm f : keeps_name f ->
+  List.find (fun p => String.eqb (p_name p) nm) (upd_peer l nm f) =
+  option_map f (List.find (fun p => String.eqb (p_name p) nm) l).
+Proof.
+  intros Hf. induction l as [|p l IH]; cbn; auto.
+  destruct (String.eqb (p_name p) nm) eqn:E; cbn; [rewrite Hf, E; auto|rewrite E; auto].
+Qed.
+
+Theorem remove_conn_sets_reason : forall n cid r c p,
+  get_conn n cid = Some c -> find_conn_peer n c = Some p -> p_conn p = Some cid ->
+  exists p', get_peer (remove_conn n cid r) (p_name p) = Some p' /\
+             p_conn p' = None /\ p_lastdisc p' = Some (n_now n) /\ p_reason p' <> None.
+Proof.
+  intros n cid r c p Hg Hf Hc. exists (clear_fn r (n_now n) p).
+  unfold get_peer. erewrite rc_peers by eauto. unfold removed_peers. rewrite Hf, Hc, Nat.eqb_refl.
+  rewrite find_upd_peer by (intro; reflexivity).
+  apply find_conn_peer_some in Hf. destruct Hf as [Hf _]. unfold get_peer in Hf. rewrite Hf. cbn.
+  repeat split; auto. destruct (p_reason p); discriminate.
+Qed.
+
+(* ---- invariant 7 (C19: retransmission windows) ---- *)
+Theorem C19_windows_bounded : forall n0 n, reach n0 n ->
+  (forall o l, List.In (o, l) (n_sent_answers n) -> List.length l <= g_rsize (n_cfg n)) /\
+  NoDup (List.map fst (n_sent_answers n)) /\
+  n_cfg n = n_cfg n0.
+Proof.
+  intros n0 n H. destruct (reach_W _ _ H) as [_ [_ [_ [_ [H1 H2]]]]]. apply reach_trans in H.
+  destruct H as [_ H]. apply trans_const in H. repeat split; auto. tauto.
+Qed.
+
+(* ---------------------------------------------------------------------------------------- *)
+(* 6. C12: an outbound connection is its peer's connection                                    *)
+(* ---------------------------------------------------------------------------------------- *)
+Definition P_ne (n : node) : Prop := ~ List.In ""%string (List.map p_name (n_peers n)).
+Definition P_own (n : node) : Prop :=
+  forall c, List.In c (n_conns n) -> c_recv c = false ->
+  exists p, List.In p (n_peers n) /\ p_name p = c_node_name c /\ p_conn p = Some (c_id c).
+
+Lemma peer_unique n p q : P_names n -> List.In p (n_peers n) -> List.In q (n_peers n) -> p_name p = p_name q -> p = q.
+Proof.
+  intros Hn Hp Hq E. pose proof (get_peer_in n p Hn Hp) as A. pose proof (get_peer_in n q Hn Hq) as B.
+  rewrite E in A. congruence.
+Qed.
+
+Lemma conn_unique n c1 c2 : NoDup (List.map c_id (n_conns n)) ->
+  List.In c1 (n_conns n) -> List.In c2 (n_conns n) -> c_id c1 = c_id c2 -> c1 = c2.
+Proof.
+  intros Hn H1 H2 E. pose proof (find_conn_in _ c1 Hn H1) as A. pose proof (find_conn_in _ c2 Hn H2) as B.
+  rewrite E in A. congruence.
+Qed.
+
+Lemma astep_ne md n n' : astep md n n' -> P_ne n -> P_ne n'.
+Proof. intros H. unfold P_ne. destruct (astep_const _ _ _ H) as [_ [E _]]. now rewrite E. Qed.
+
+Lemma P_own_upd n cid f :
+  (forall c, c_id (f c) = c_id c /\ c_recv (f c) = c_recv c /\
+             (c_recv c = false -> (exists p, List.In p (n_peers n) /\ p_name p = c_node_name c) -> c_node_name (f c) = c_node_name c)) ->
+  P_own n -> P_own (set_conns n (upd_conn (n_conns n) cid f)).
+Proof.
+  intros Hf Ho c' Hin Hr. cbn in Hin |- *. apply in_upd_conn in Hin.
+  destruct Hin as [Hin|[c [Hin [E _]]]]; [now apply Ho|].
+  subst c'. destruct (Hf c) as [E1 [E2 E3]]. rewrite E2 in Hr. destruct (Ho c Hin Hr) as [p [Hp [Hn Hc]]].
+  exists p. rewrite E1, E3; eauto.
+Qed.
+
+Lemma astep_own md n n' : astep md n n' -> P_ids n -> P_names n -> P_ne n -> P_own n -> P_own n'.
+Proof.
+  intros H Hi Hn Hne Ho. destruct H; try exact Ho.
+  - apply P_own_upd; auto. intros c. destruct (H c) as [A [B [C D]]]. auto.
+  - apply P_own_upd; auto. intros c. unfold name_fn.
+    destruct (String.eqb (c_node_name c) "") eqn:E; cbn; auto.
+    apply String.eqb_eq in E. repeat split; auto. intros _ [q [Hq Eq]]. exfalso. apply Hne.
+    rewrite E in Eq. rewrite <- Eq. now apply in_map.
+  - apply P_own_upd; auto.
+  - (* peer_soft *)
+    intros c Hin Hr. cbn in Hin |- *. destruct (Ho c Hin Hr) as [p [Hp [En Ec]]].
+    destruct (upd_peer_image (n_peers n) nm f p Hn Hp) as [[_ Hi']|[_ Hi']]; [exists p; auto|].
+    exists (f p). destruct (H p) as [A [B _]]. rewrite A, B. auto.
+  - (* assign *)
+    intros c0 Hin Hr. cbn in Hin |- *. destruct (Ho c0 Hin Hr) as [q [Hq [En Ec]]].
+    destruct (upd_peer_image (n_peers n) (c_host c) (assign_fn cid lc) q Hn Hq) as [[_ Hi']|[_ Hi']]; [exists q; auto|].
+    exists (assign_fn cid lc q). split; [exact Hi'|]. unfold assign_fn; cbn. rewrite Ec. auto.
+  - (* remove *)
+    intros c0 Hin Hr. erewrite rc_conns in Hin by eauto. erewrite rc_peers by eauto.
+    apply filter_In in Hin. destruct Hin as [Hin Hne']. apply negb_true_iff, Nat.eqb_neq in Hne'.
+    destruct (Ho c0 Hin Hr) as [q [Hq [En Ec]]]. exists q. split; auto.
+    unfold removed_peers. destruct (find_conn_peer n c) as [p|] eqn:Ef; auto.
+    destruct (p_conn p) as [k|] eqn:Ek; auto. destruct (Nat.eqb k cid) eqn:E; auto.
+    apply Nat.eqb_eq in E. subst k. apply find_conn_peer_some in Ef. destruct Ef as [_ [Hp _]].
+    destruct (upd_peer_image (n_peers n) (p_name p) (clear_fn r (n_now n)) q Hn Hq) as [[_ Hi']|[En' _]]; auto.
+    exfalso. assert (q = p) by (eapply peer_unique; eauto). subst q. congruence.
+  - (* accept *)
+    intros c Hin Hr. unfold accept_conn in Hin |- *. cbn in Hin |- *. apply in_app_iff in Hin.
+    destruct Hin as [Hin|[Hin|[]]]; [now apply Ho|]. subst c. discriminate.
+  - (* dial *)
+    intros c Hin Hr. unfold dial_conn in Hin |- *. cbn in Hin |- *. apply in_app_iff in Hin.
+    destruct (get_peer_some _ _ _ H) as [Hp Enm].
+    destruct Hin as [Hin|[Hin|[]]].
+    + destruct (Ho c Hin Hr) as [q [Hq [En Ec]]]. exists q. split; auto.
+      match goal with |- List.In q (upd_peer _ _ ?F) =>
+        destruct (upd_peer_image (n_peers n) name F q Hn Hq) as [[_ Hi']|[En' _]]; auto end.
+      exfalso. assert (q = p) by (eapply peer_unique; eauto; congruence). subst q. congruence.
+    + subst c. cbn.
+      match goal with |- exists _, List.In _ (upd_peer _ _ ?F) /\ _ =>
+        destruct (upd_peer_image (n_peers n) name F p Hn Hp) as [[Hx _]|[_ Hi']]; [congruence|] end.
+      eexists; split; [exact Hi'|]. cbn. auto.
+Qed.
+
+Definition WO (n : node) : Prop := W n /\ P_ne n /\ P_own n.
+
+Lemma astep_WO md n n' : astep md n n' -> WO n -> WO n'.
+Proof.
+  intros H [HW [Hne Ho]]. split; [eapply astep_W; eauto|]. split; [eapply astep_ne; eauto|].
+  destruct HW as [Hi [Hn _]]. eapply astep_own; eauto.
+Qed.
+
+Lemma WO_init n : wf_init n -> P_ne n -> WO n.
+Proof.
+  intros Hw Hne. split; [now apply W_init|]. split; auto. destruct Hw as [H1 _].
+  intros c Hin. rewrite H1 in Hin. destruct Hin.
+Qed.
+
+Lemma reach_WO n0 n : reach n0 n -> P_ne n0 -> WO n.
+Proof.
+  intros H Hne. apply reach_trans in H. destruct H as [Hw H].
+  eapply (trans_inv MAny WO); eauto. apply astep_WO. now apply WO_init.
+Qed.
+
+(* ---- invariant 4 ---- *)
+Theorem C12_outbound_owned : forall n0 n, reach n0 n -> ~ List.In ""%string (List.map p_name (n_peers n0)) ->
+  forall c, List.In c (n_conns n) -> c_recv c = false ->
+  exists p, List.In p (n_peers n) /\ p_name p = c_node_name c /\ p_conn p = Some (c_id c).
+Proof. intros n0 n H Hne. destruct (reach_WO _ _ H Hne) as [_ [_ Ho]]. exact Ho. Qed.
+
+Theorem C12_single_outbound : forall n0 n, reach n0 n -> ~ List.In ""%string (List.map p_name (n_peers n0)) ->
+  forall c1 c2, List.In c1 (n_conns n) -> List.In c2 (n_conns n) ->
+  c_recv c1 = false -> c_recv c2 = false -> c_node_name c1 = c_node_name c2 -> c1 = c2.
+Proof.
+  intros n0 n H Hne c1 c2 H1 H2 R1 R2 E. destruct (reach_WO _ _ H Hne) as [[[Hnd _] [Hn _]] [_ Ho]].
+  destruct (Ho c1 H1 R1) as [p1 [Hp1 [N1 C1]]]. destruct (Ho c2 H2 R2) as [p2 [Hp2 [N2 C2]]].
+  assert (p1 = p2) by (eapply peer_unique; eauto; congruence). subst p2.
+  eapply conn_unique; eauto. congruence.
+Qed.
+
+(* ---------------------------------------------------------------------------------------- *)
+(* 7. guarded invariants: identities are stable                                              *)
+(* ---------------------------------------------------------------------------------------- *)
+Definition G_ident (n : node) : Prop :=
+  forall c, List.In c (n_conns n) -> c_host c = ""%string \/ c_host c = c_node_name c.
+Definition G_live (n : node) : Prop :=
+  forall p cid, List.In p (n_peers n) -> p_conn p = Some cid ->
+  exists c, List.In c (n_conns n) /\ c_id c = cid /\ c_node_name c = p_name p.
+Definition G_pw (n : node) : Prop :=
+  forall h, List.In h (List.map fst (n_peer_waiting n)) ->
+  h = ""%string \/ exists c, List.In c (n_conns n) /\ c_host c = h.
+
+Lemma get_conn_in n c : P_ids n -> List.In c (n_conns n) -> get_conn n (c_id c) = Some c.
+Proof. intros [H _] Hin. unfold get_conn. now apply find_conn_in. Qed.
+
+Lemma astep_ident n n' : astep MGuard n n' -> P_ids n -> G_ident n -> G_ident n'.
+Proof.
+  intros H Hi Hg. destruct H; try exact Hg.
+  - intros c' Hin. cbn in Hin. apply in_upd_conn in Hin. destruct Hin as [Hin|[c [Hin [E _]]]]; auto.
+    subst c'. destruct (H c) as [_ [_ [A B]]]. rewrite A, B. auto.
+  - intros c' Hin. cbn in Hin. apply in_upd_conn in Hin. destruct Hin as [Hin|[c [Hin [E _]]]]; auto.
+    subst c'. unfold name_fn. destruct (String.eqb (c_node_name c) "") eqn:E; auto. cbn.
+    apply String.eqb_eq in E. destruct (Hg c Hin) as [A|A]; auto. left. congruence.
+  - intros c' Hin. cbn in Hin. apply in_upd_conn in Hin. destruct Hin as [Hin|[c [Hin [E Eid]]]]; auto.
+    subst c'. cbn. right. symmetry. apply H0; [exact I|]. subst cid. now apply get_conn_in.
+  - intros c' Hin. erewrite rc_conns in Hin by eauto. apply filter_In in Hin. apply Hg. tauto.
+  - intros c' Hin. unfold accept_conn in Hin. cbn in Hin. apply in_app_iff in Hin.
+    destruct Hin as [Hin|[Hin|[]]]; auto. subst c'. auto.
+  - intros c' Hin. unfold dial_conn in Hin. cbn in Hin. apply in_app_iff in Hin.
+    destruct Hin as [Hin|[Hin|[]]]; auto. subst c'. auto.
+Qed.
+
+Lemma G_live_upd n cid f :
+  (forall c, c_id (f c) = c_id c /\
+             ((exists p, List.In p (n_peers n) /\ p_name p = c_node_name c) -> c_node_name (f c) = c_node_name c)) ->
+  G_live n -> G_live (set_conns n (upd_conn (n_conns n) cid f)).
+Proof.
+  intros Hf Hg p k Hp Hk. cbn in Hp |- *. destruct (Hg p k Hp Hk) as [c [Hin [E1 E2]]].
+  destruct (upd_conn_image (n_conns n) cid f c Hin) as [Hi'|[_ Hi']]; [exists c; auto|].
+  exists (f c). destruct (Hf c) as [A B]. rewrite A, B; eauto.
+Qed.
+
+Lemma astep_live n n' : astep MGuard n n' -> P_ids n -> P_names n -> P_ne n -> G_ident n -> G_live n -> G_live n'.
+Proof.
+  intros H Hi Hn Hne Hid Hg. destruct H; try exact Hg.
+  - apply G_live_upd; auto. intros c. destruct (H c) as [A [_ [B _]]]. auto.
+  - apply G_live_upd; auto. intros c. unfold name_fn.
+    destruct (String.eqb (c_node_name c) "") eqn:E; cbn; auto.
+    apply String.eqb_eq in E. split; auto. intros [q [Hq Eq]]. exfalso. apply Hne.
+    rewrite E in Eq. rewrite <- Eq. now apply in_map.
+  - apply G_live_upd; auto.
+  - (* peer_soft *)
+    intros p' k Hp Hk. cbn in Hp |- *. apply in_upd_peer_weak in Hp. destruct Hp as [Hp|[p [Hp E]]]; eauto.
+    subst p'. destruct (H p) as [A [B _]]. rewrite A. rewrite B in Hk. eauto.
+  - (* assign *)
+    intros p' k Hp Hk. cbn in Hp |- *. apply in_upd_peer in Hp; auto.
+    destruct Hp as [[Hp _]|[q [Hq [E En]]]]; eauto. subst p'. unfold assign_fn in Hk |- *; cbn in Hk |- *.
+    destruct (p_conn q) as [k0|] eqn:Eq.
+    + inversion Hk; subst k0. eauto.
+    + inversion Hk; subst k. destruct (get_conn_some _ _ _ H) as [Hin Eid]. exists c. repeat split; auto.
+      destruct (Hid c Hin) as [A|A]; congruence.
+  - (* remove *)
+    intros p' k Hp Hk. pose proof Hp as Hp0. erewrite rc_peers in Hp by eauto. erewrite rc_conns by eauto.
+    apply in_removed_peers in Hp. destruct Hp as [Hp|[q [_ [E _]]]]; [|subst p'; discriminate].
+    destruct (Hg p' k Hp Hk) as [c0 [Hin [E1 E2]]].
+    destruct (Nat.eq_dec k cid) as [D|D].
+    + exfalso. subst k. destruct (get_conn_some _ _ _ H) as [Hin' Eid].
+      assert (c0 = c) by (eapply conn_unique; eauto; [apply Hi|congruence]). subst c0.
+      erewrite rc_peers in Hp0 by eauto. unfold removed_peers, find_conn_peer in Hp0.
+      rewrite E2, (get_peer_in n p' Hn Hp), Hk in Hp0.
+      match type of Hp0 with context [Nat.eqb ?a ?b] => replace (Nat.eqb a b) with true in Hp0
+        by (symmetry; apply Nat.eqb_eq; congruence) end.
+      apply in_upd_peer in Hp0; auto. destruct Hp0 as [[_ A]|[q [_ [A _]]]]; [congruence|].
+      subst p'. discriminate.
+    + exists c0. repeat split; auto. apply filter_In. split; auto. apply negb_true_iff, Nat.eqb_neq. congruence.
+  - (* accept *)
+    intros p' k Hp Hk. unfold accept_conn in Hp |- *. cbn in Hp |- *. destruct (Hg p' k Hp Hk) as [c0 [Hin E]].
+    exists c0. split; auto. apply in_app_iff. auto.
+  - (* dial *)
+    intros p' k Hp Hk. unfold dial_conn in Hp |- *. cbn in Hp |- *. apply in_upd_peer in Hp; auto.
+    destruct Hp as [[Hp _]|[q [Hq [E En]]]].
+    + destruct (Hg p' k Hp Hk) as [c0 [Hin E]]. exists c0. split; auto. apply in_app_iff. auto.
+    + subst p'. cbn in Hk |- *. inversion Hk; subst k. eexists. split; [apply in_app_iff; right; left; reflexivity|].
+      cbn. auto.
+Qed.
+
+Lemma in_pw_add pw host k h : List.In h (List.map fst (pw_add pw host k)) -> List.In h (List.map fst pw) \/ h = host.
+Proof.
+  unfold pw_add. destruct (List.existsb _ pw).
+  - rewrite map_map. intros H. left. apply in_map_iff in H. destruct H as [e [E H]].
+    apply in_map_iff. exists e. split; auto. destruct (String.eqb (fst e) host); auto.
+  - rewrite map_app. cbn. intros H. apply in_app_iff in H. destruct H as [H|[H|[]]]; auto.
+Qed.
+
+Lemma G_pw_upd n cid f : (forall c, c_host (f c) = c_host c) -> G_pw n -> G_pw (set_conns n (upd_conn (n_conns n) cid f)).
+Proof.
+  intros Hf Hg h Hh. cbn in Hh |- *. destruct (Hg h Hh) as [A|[c [Hin E]]]; auto. right.
+  destruct (upd_conn_image (n_conns n) cid f c Hin) as [Hi'|[_ Hi']]; [exists c; auto|].
+  exists (f c). rewrite Hf. auto.
+Qed.
+
+Lemma astep_pw n n' : astep MGuard n n' -> P_ids n -> G_ident n -> G_pw n -> G_pw n'.
+Proof.
+  intros H Hi Hid Hg. destruct H; try exact Hg.
+  - apply G_pw_upd; auto. intros c. apply H.
+  - apply G_pw_upd; auto. intros c. unfold name_fn. destruct (String.eqb _ _); auto.
+  - (* host *)
+    intros h Hh. cbn in Hh |- *. destruct (Hg h Hh) as [A|[c [Hin E]]]; auto.
+    match goal with |- _ \/ exists _, List.In _ (upd_conn _ _ ?F) /\ _ =>
+      destruct (upd_conn_image (n_conns n) cid F c Hin) as [Hi'|[Eid Hi']] end; [right; exists c; auto|].
+    destruct (Hid c Hin) as [B|B]; [left; congruence|]. right. eexists. split; [exact Hi'|]. cbn.
+    rewrite <- E, B. symmetry. apply H0; [exact I|]. subst cid. now apply get_conn_in.
+  - intros h Hh. cbn in Hh |- *. apply H in Hh. auto.
+  - intros h Hh. cbn in Hh |- *. apply in_pw_add in Hh. destruct Hh as [Hh|Hh]; auto.
+    right. exists c. apply get_conn_some in H. subst h. tauto.
+  - (* remove *)
+    intros h Hh. erewrite rc_pw in Hh by eauto. erewrite rc_conns by eauto.
+    apply in_map_iff in Hh. destruct Hh as [e [E Hh]]. apply filter_In in Hh. destruct Hh as [Hh Hne].
+    apply negb_true_iff, String.eqb_neq in Hne.
+    destruct (Hg h) as [A|[c0 [Hin E0]]]; [apply in_map_iff; eauto|auto|].
+    right. exists c0. split; auto. apply filter_In. split; auto. apply negb_true_iff, Nat.eqb_neq.
+    intro D. destruct (get_conn_some _ _ _ H) as [Hin' Eid].
+    assert (c0 = c) by (eapply conn_unique; eauto; [apply Hi|congruence]). subst c0. congruence.
+  - intros hh Hh. unfold accept_conn in Hh |- *. cbn in Hh |- *. destruct (Hg hh Hh) as [A|[c0 [Hin E0]]]; auto.
+    right. exists c0. split; auto. apply in_app_iff. auto.
+  - intros hh Hh. unfold dial_conn in Hh |- *. cbn in Hh |- *. destruct (Hg hh Hh) as [A|[c0 [Hin E0]]]; auto.
+    right. exists c0. split; auto. apply in_app_iff. auto.
+Qed.
+
+Definition GI (n : node) : Prop := WO n /\ G_ident n /\ G_live n /\ G_pw n.
+
+Lemma astep_GI n n' : astep MGuard n n' -> GI n -> GI n'.
+Proof.
+  intros H [HW [H1 [H2 H3]]]. pose proof HW as [[Hi [Hn _]] [Hne _]].
+  split; [eapply astep_WO; eauto|]. split; [eapply astep_ident; eauto|].
+  split; [eapply astep_live; eauto|eapply astep_pw; eauto].
+Qed.
+
+Lemma GI_init n : wf_init n -> P_ne n -> GI n.
+Proof.
+  intros Hw Hne. split; [now apply WO_init|]. destruct Hw as [H1 [_ [_ [H4 [_ [_ [_ [H8 _]]]]]]]].
+  unfold G_ident, G_live, G_pw. rewrite H1, H4. cbn. repeat split; try tauto.
+  intros p cid Hp Hc. apply H8 in Hp. destruct Hp as [A _]. congruence.
+Qed.
